@@ -11,6 +11,7 @@ import (
 	"testing"
 
 	"github.com/zitadel/oidc/v3/pkg/oidc"
+	"github.com/zitadel/schema"
 	"golang.org/x/text/language"
 
 	"verif/harness/vkit"
@@ -403,7 +404,8 @@ func prepEncode(typ string, val *Obj, res *vkit.Result) *encPrep {
 		res.Fail("C12:panic@"+vkit.FirstLibFrame(stack), "building the value panicked: %v", pan)
 		return nil
 	}
-	effective[val] = topCustom
+	// a copy: the map inside the value is the caller's (a later step may change it in place), the model keeps what was encoded
+	effective[val], _ = normJSON(topCustom).(map[string]any)
 	return &encPrep{typ: typ, val: val, b: b, custom: func(o *Obj) map[string]any { return effective[o] }}
 }
 
@@ -608,6 +610,9 @@ type scalarDest struct {
 	loc  oidc.Locale
 	bl   oidc.Bool
 	sda  oidc.SpaceDelimitedArray
+	// the form entries: the parameter of an authorization request, decoded by the form decoder the provider uses
+	req  *oidc.AuthRequest
+	form *schema.Decoder
 }
 
 // decode feeds doc to the decoder of the variable.
@@ -629,6 +634,8 @@ func (d *scalarDest) decode(doc []byte) (err error) {
 		err = d.locs.UnmarshalText(doc)
 	case "SpaceDelimitedArrayText":
 		err = d.sda.UnmarshalText(doc)
+	case "LocalesForm", "SpaceDelimitedArrayForm":
+		err = d.decodeForm(doc)
 	}
 	return
 }
@@ -658,15 +665,26 @@ func (d *scalarDest) value() (val any) {
 		}
 	case "SpaceDelimitedArray", "SpaceDelimitedArrayText":
 		val = anyList(d.sda)
+	case "LocalesForm":
+		l := make([]string, len(d.req.UILocales))
+		for i, t := range d.req.UILocales {
+			l[i] = t.String()
+		}
+		val = anyList(l)
+	case "SpaceDelimitedArrayForm":
+		val = anyList(d.req.Scopes)
 	}
 	return
 }
 
 var scalarKind = map[string]fkind{"Audience": kAud, "Time": kTime, "Locales": kLocales, "Locale": kLocale, "Bool": kXBool, "SpaceDelimitedArray": kSDA,
 	// the text (form / query parameter) decoders of the two space-delimited types: the document is the bare text
-	"LocalesText": kLocales, "SpaceDelimitedArrayText": kSDA}
+	"LocalesText": kLocales, "SpaceDelimitedArrayText": kSDA,
+	// the same two as parameters of an authorization request (ui_locales, scope) decoded by the form decoder: the document is the parameter value
+	"LocalesForm": kLocales, "SpaceDelimitedArrayForm": kSDA}
 
-func isTextType(typ string) bool { return strings.HasSuffix(typ, "Text") }
+// isTextType: the document is the bare text (not JSON).
+func isTextType(typ string) bool { return strings.HasSuffix(typ, "Text") || strings.HasSuffix(typ, "Form") }
 
 func matches(got any, e expect) bool {
 	if isZeroCanon(got) && isZeroCanon(e.want) {
@@ -690,11 +708,16 @@ type dest struct {
 	b    *binding
 	sc   *scalarDest
 	held bool
+	keys []string // JWTTokenRequest: the member names of the documents decoded into it (its custom claims are read one by one)
 }
 
 func newDest(typ string) *dest {
 	if _, ok := scalarKind[typ]; ok {
-		return &dest{typ: typ, sc: &scalarDest{typ: typ}}
+		sc := &scalarDest{typ: typ}
+		if isFormType(typ) {
+			sc.req, sc.form = new(oidc.AuthRequest), newFormDecoder()
+		}
+		return &dest{typ: typ, sc: sc}
 	}
 	if b := bind(typ); b != nil {
 		return &dest{typ: typ, b: b}
@@ -805,6 +828,7 @@ func doDecode(typ string, doc []byte, d *dest) *decOut {
 	if d.b != nil && d.b.lookup != nil {
 		if members, order, _, ok := parseObject(doc); ok && members != nil {
 			keys = order
+			d.keys = append(d.keys, order...)
 		}
 	}
 	if d.held {
@@ -1238,9 +1262,14 @@ var prop = vkit.Prop[Case]{
 		"(after all steps it must equal the copy taken at return time and be the encoding (a) prescribes for ITS value, and decode back); decode a generated document into a fresh destination, into a destination an earlier step decoded into, " +
 		"or into a destination pre-populated with a generated value (claims types and the stand-alone decoder variables; later documents prefer member names the destination has met): every member the document contains is decoded exactly as " +
 		"into a fresh destination (replaced, never mixed with the old content), members it does not contain and custom claims of earlier documents keep what the destination held (encoding/json's documented behaviour) or are zero, " +
-		"and a decoded value still holds the same when the sequence is over; TestFormsEnumerated also decodes every enumerated single-member document twice into a destination in which every claim is set, and every scalar form into a variable that holds a value; " +
+		"and a decoded value still holds the same when the sequence is over; " +
+		"a step may also be the CALLER CHANGING IN PLACE what an earlier step decoded (or built and encoded): every slice, map and pointer reachable from the value (audience, scope, amr, locales, custom-claims maps and what is nested in them, events, " +
+		"actor / address / locale pointers) gets one of overwrite / reorder (reverse, sort) / delete (slices.DeleteFunc semantics, map keys) / grow (append, insert key); the steps prefer documents the case decodes elsewhere too " +
+		"(the same document again, a document sharing members or tokens with it, the same text through UnmarshalJSON, UnmarshalText and the form decoder as ui_locales / scope of an authorization request): " +
+		"every decode is judged against ITS document, and every value holds at the end what its decode / its owner left in it; TestFormsEnumerated also decodes every enumerated single-member document twice into a destination in which every claim is set, and every scalar form into a variable that holds a value, " +
+		"and decodes every enumerated form, changes the result in place (every kind of change) and decodes the form again through every decoder entry of its family; " +
 		"TestConcurrent (race binary) runs such step lists on 2-6 goroutines at once. " +
-		"non-trivial = (a) the custom map collides with >=1 registered name, (b) the document uses a non-canonical tolerant form, (c) plaintext length is not a multiple of the block, (d) >=2 kept encoded documents or a decode into a re-used / pre-populated destination; " +
+		"non-trivial = (a) the custom map collides with >=1 registered name, (b) the document uses a non-canonical tolerant form, (c) plaintext length is not a multiple of the block, (d) >=2 kept encoded documents or a decode into a re-used / pre-populated destination or an in-place change that changed something; " +
 		"distinct = (a) type + colliding set/unset names + set registered names, (b) type + multiset of member forms, (c) API, key length, relation of the two keys (common prefix class), plaintext length, tampering, (d) the list of (operation, type, destination kind). " +
 		"excluded: custom values that are not JSON-safe (invalid UTF-8, NaN), scope entries with spaces; grey: duplicate member names, case variants of registered names, fractional or >2^53 timestamps, language tags that canonicalisation rewrites",
 	Gen:   genCase,
@@ -1263,7 +1292,7 @@ func TestFormsEnumerated(t *testing.T) {
 	rec := vkit.NewRecorder(prop.ID, prop.Rule)
 	defer rec.Flush()
 	defer func() { rec.SetExtra("enumerated_form_histogram", snapshotForms()) }()
-	n := 0
+	n, nmut := 0, 0
 	try := func(c Case) {
 		res := run(c)
 		rec.Record(c, res)
@@ -1281,6 +1310,10 @@ func TestFormsEnumerated(t *testing.T) {
 				// the same member into a destination in which every claim holds a value, and then a second time into that destination
 				doc := "{" + q(f.name) + ":" + form + "}"
 				try(Case{Kind: "seq", Dests: []Dest{{Type: typ, Pre: fullObj(typ, 0)}}, Seq: []Step{{Op: "dec", Dest: 1, Doc: doc}, {Op: "dec", Dest: 1, Doc: doc}}})
+				// the member decoded, what was decoded changed in place by its owner, the member decoded again (alone and next to other members)
+				nmut++
+				try(Case{Kind: "seq", Seq: []Step{{Op: "dec", Type: typ, Doc: doc}, {Op: "mut", Ref: 1, Mut: mutOps[nmut%len(mutOps)], Sel: nmut / len(mutOps) % 6},
+					{Op: "dec", Type: typ, Doc: doc}, {Op: "dec", Type: typ, Doc: "{\"custom\":[1,\"x\"]," + q(f.name) + ":" + form + "}"}}})
 			}
 		}
 	}
@@ -1300,6 +1333,22 @@ func TestFormsEnumerated(t *testing.T) {
 					json.Unmarshal([]byte(first), &first)
 				}
 				try(Case{Kind: "seq", Dests: []Dest{{Type: typ}}, Seq: []Step{{Op: "dec", Dest: 1, Doc: first}, {Op: "dec", Dest: 1, Doc: form}}})
+			}
+			// every form decoded, what was decoded changed in place by its owner (every kind of change), and the form decoded again
+			// through every decoder entry of the type's family (UnmarshalJSON, UnmarshalText, the form decoder)
+			fam := familyOf(typ)
+			if fam == "" {
+				continue
+			}
+			for _, op := range mutOps {
+				for _, again := range families[fam] {
+					doc2, ok := docFor(again, form, isTextType(typ))
+					if !ok {
+						continue
+					}
+					nmut++
+					try(Case{Kind: "seq", Seq: []Step{{Op: "dec", Type: typ, Doc: form}, {Op: "mut", Ref: 1, Mut: op, Sel: nmut % 6}, {Op: "dec", Type: again, Doc: doc2}, {Op: "dec", Type: typ, Doc: form}}})
+				}
 			}
 		}
 	}
